@@ -113,14 +113,19 @@ class NCEval:
   `helper(call)` may return (params, body) of a straight-line repo function
   to inline."""
 
-  def __init__(self, mats, scalars, canon_of, helper=None):
+  def __init__(self, mats, scalars, canon_of, helper=None, special=None):
     self.mats = dict(mats)
     self.scalars = dict(scalars)
     self.canon_of = canon_of
     self.helper = helper
+    self.special = special      # expr -> NC | Rat | None, tried first
     self.depth = 0
 
   def ev(self, e):
+    if self.special is not None:
+      v = self.special(e)
+      if v is not None:
+        return v
     txt = ast.unparse(e)
     if txt in self.scalars:
       return self.scalars[txt]
@@ -255,7 +260,8 @@ class NCEval:
         if len(params) == len(e.args) and not e.keywords:
           vals = [self.ev(a) for a in e.args]
           if all(v is not None for v in vals):
-            sub = NCEval({}, self.scalars, self.canon_of, self.helper)
+            sub = NCEval({}, self.scalars, self.canon_of, self.helper,
+                         self.special)
             sub.depth = self.depth + 1
             for p, v in zip(params, vals):
               if isinstance(v, NC):
